@@ -333,9 +333,11 @@ func (x *Idx) SearchKeys(m string, cond influxql.Expr) ([]string, error) {
 }
 
 // ScanIDs: the path of SELECT (engine/iterators.go: indexBuilder.Scan).
-func (x *Idx) ScanIDs(m string, cond influxql.Expr, groupAll bool) ([]uint64, error) {
+func (x *Idx) ScanIDs(m string, cond influxql.Expr, prom bool) ([]uint64, error) {
 	opt := &query.ProcessorOptions{StartTime: tsi.DefaultTR.Min, EndTime: tsi.DefaultTR.Max, Condition: cond, Ascending: true}
-	if groupAll {
+	if prom {
+		// the PromQL flavour of the same path: label matchers are fully anchored
+		opt.PromQuery = true
 		opt.GroupByAllDims = true
 	}
 	res, _, err := x.b.Scan(nil, []byte(m+verSuffix), opt, func(int64) error { return nil })
